@@ -113,4 +113,6 @@ def check(ctx, R):
     R.run("C15.c", c17.rule_a, ctx, "C15.c")
     R.run("C15.d", rule_d, ctx)
     R.run("C15.e", rule_e, ctx)
+    from . import c12
+    R.run("C15.f", lambda R, c: c12.keep_propagates(R, c, "C15.f"), ctx)
     return {}
